@@ -231,7 +231,7 @@ def run(chk, prog):
                        if st_['k'] == 'assign' and any(
                            pe['k'] == 'field' and pe.get('n') == 'origins' and 'InkList' in pe.get('adt', '')
                            for pl in ([st_['rv'].get('pl')] if 'pl' in st_['rv'] else []) +
-                           ([st_['rv']['op']['pl']] if st_['rv'].get('op', {}).get('k') in ('copy', 'move') else [])
+                           ([st_['rv']['op']['pl']] if isinstance(st_['rv'].get('op'), dict) and st_['rv']['op'].get('k') in ('copy', 'move') else [])
                            for pe in (pl or {}).get('p', []))]
         chk.decide(R2a, chk.key(R2a, 'origins-from-names-only'), not reads_cache,
                    'write_ink_list does not read the resolved-origins cache',
